@@ -15,6 +15,18 @@ CHECKS["C09"] = ("E2", "deterministic simulation: cooperative seeded scheduler (
   "exploration",
   "2-3 simulated callers (thorough: up to 12) each doing 1-2 AddCount / Count / Values / view GetSum operations around a bucket boundary on a pre-filled array; the scheduler interleaves them at every atomic access of currentBucketOfTime, ResetBucketTo and MetricBucket; oracles over the recorded history: no read exceeds what was recorded in or after its window (no invention, duplication or expired data), at quiescence no bucket holds more than the amounts whose timestamps select it, buckets whose rollover nobody overlapped are exact, every caller terminates within the step budget. Sampled interleavings (hundreds of thousands per quick run), not all.",
   "Trusted: the cooperative scheduler and shims (sim/), that yield points before each atomic/lock op are the only relevant preemption points (sequential consistency of Go atomics), the history oracle. Real goroutines, one running at a time.", "DESIGN.md §3 C09")
+CHECKS["C02"] = ("E1+E2", "deterministic simulation: seeded request/tick histories under a virtual clock against an exact admit-iff-W+b<=T reference (per rule, aligned windows incl. standalone and associated statistics); 25% of runs interleave 2-4 callers with the seeded scheduler at every atomic access between rule check and statistic record and check the k-1 excess bound and absence of unjustifiable rejections",
+  "exploration",
+  "Every decision, TriggeredRule and TriggeredValue of every request is compared with the reference in E1 runs (both directions: no over-admission, no spurious rejection, later rejections in the chain consume no quota); E2 runs check the stated (k-1)*max-batch bound per aligned window using only facts certain from invoke/return order. Sampling of configurations, histories and schedules.",
+  "Trusted: reference model of rule statistics (DESIGN.md A.1, assumption on the bucket count of private windows stated in evidence), virtual clock seam, cooperative scheduler.", "DESIGN.md §3 C02")
+CHECKS["C04"] = ("E1+E2", "deterministic simulation: seeded entry/exit histories (any exit order, batches up to 2^32-1, exits with errors) against an exact live-count model; 30% of runs interleave 2-4 callers under the seeded scheduler and check the N+(k-1) bound and zero concurrency at quiescence",
+  "exploration",
+  "E1: admit iff for every rule live+b<=N in unbounded integers, TriggeredRule/Value, gauge==live after every operation, capacity reusable after Exit. E2: externally observed in-flight count never above N+(k-1). Sampling.",
+  "Trusted: live-count model, scheduler shims; batch>=1.", "DESIGN.md §3 C04")
+CHECKS["C01"] = ("E1+E2", "deterministic simulation with fault injection: seeded Entry/TraceError/Exit histories incl. repeated and late calls on a chain = default slots + scripted prepare/rule-check slots (block / panic / nil on cue) + recording stat slot; injected faults: slot panics, rule-evaluation panics via un-hashable arguments, seeded pool reuse (SimPool), clock jumps; tally model checked after every operation; 25% of runs under the seeded scheduler with 2-4 callers",
+  "exploration",
+  "After every operation: one outcome per Entry, exactly one pass|block callback with the right resource/batch, exactly one completion per passed entry with its own last error and rt, nothing for blocked or late calls, live entries keep their own Err()/Args, node and inbound concurrency equal the live count (never negative), windowed sums equal the reference window of the tallied events. Sampling of histories, pool decisions and schedules.",
+  "Trusted: tally model + window model, SimPool as a faithful sync.Pool behaviour subset, scheduler. One open finding is tolerated by adapting the model (panic-passed requests are uncounted).", "DESIGN.md §3 C01")
 NOT_YET = {}
 props = [json.loads(l) for l in open(os.path.join(HERE, 'properties.jsonl'))]
 checks, na = [], []
